@@ -191,6 +191,21 @@ def run_deductive(prop, tier, seed, report):
             if len(samples) < 12:
                 samples.append({"obligation": name, "kind": "frame", "line": 0, "solver": "syntactic-rule",
                                 "clause": f"every assignment to .{attr_} in the package is inside {owner_}"})
+    for cname_, sites_ in sorted(class_constant_mutations(eng.repo).items()):
+        # C14 / C15 own this obligation; every other property owns it for the classes whose functions it verifies (their proofs read
+        # class-level containers as immutable values)
+        owner_cls = cname_.rsplit(".", 1)[0].split(".")[-1]
+        if prop in ("C14", "C15") or any(("::" + owner_cls + ".") in k for k in funcs):
+            n_ob += 1
+            name = f"class-constant-not-mutated@{cname_}"
+            if sites_:
+                wo_open.append((name, sites_))
+            else:
+                n_dis += 1
+                by_solver["syntactic-rule"] = by_solver.get("syntactic-rule", 0) + 1
+                if len(samples) < 12:
+                    samples.append({"obligation": name, "kind": "frame", "line": 0, "solver": "syntactic-rule",
+                                    "clause": "no in-place mutation of this class-level container (directly, through a local alias or through an instance attribute assigned by reference)"})
     report["_wo_open"] = wo_open
     report["deductive"].update({"obligations": n_ob, "discharged": n_dis, "by_solver": by_solver})
     report["samples"] = samples
@@ -203,6 +218,75 @@ def run_deductive(prop, tier, seed, report):
     report["_ledger"] = ledger
     report["_known"] = known
     return report
+
+
+def class_constant_mutations(repo):
+    """class-level list / dict / set constants and the places that could mutate them in place (directly, through a local alias, or
+    through an instance attribute that was assigned the constant by reference).  The translator reads such constants as immutable
+    values; this obligation guards that reading (and is what 'state shared between generations' would look like in the source)."""
+    import ast
+    MUT = {"append", "extend", "insert", "remove", "pop", "add", "update", "clear", "discard", "setdefault", "sort", "reverse", "popitem", "__setitem__"}
+    out = {}
+    for cname, ci in sorted(repo.classes.items()):
+        consts = set()
+        for sub in ci.node.body:
+            tgt = val = None
+            if isinstance(sub, ast.Assign) and len(sub.targets) == 1 and isinstance(sub.targets[0], ast.Name):
+                tgt, val = sub.targets[0].id, sub.value
+            elif isinstance(sub, ast.AnnAssign) and isinstance(sub.target, ast.Name) and sub.value is not None:
+                tgt, val = sub.target.id, sub.value
+            if tgt is None or tgt.startswith("__"):
+                continue
+            if isinstance(val, (ast.List, ast.Dict, ast.Set, ast.ListComp, ast.DictComp, ast.SetComp)) or \
+                    (isinstance(val, ast.Call) and isinstance(val.func, ast.Name) and val.func.id in ("list", "dict", "set", "defaultdict", "OrderedDict")):
+                consts.add(tgt)
+        if not consts:
+            continue
+        # subclasses see the constant too
+        users = [k for k, c2 in repo.classes.items() if cname.split(".")[-1] in [m.split(".")[-1] for m in c2.mro]] or [cname]
+        for uname in users:
+            uci = repo.classes[uname]
+            aliases_attr = {}           # instance attribute -> constant it was assigned by reference
+            for fn in [n for n in ast.walk(uci.node) if isinstance(n, (ast.FunctionDef, ast.AsyncFunctionDef))]:
+                local_alias = {}
+                for n in ast.walk(fn):
+                    def const_of(e):
+                        if isinstance(e, ast.Attribute) and e.attr in consts and isinstance(e.value, ast.Name) and e.value.id in ("self", "cls", cname.split(".")[-1], uname.split(".")[-1]):
+                            return e.attr
+                        if isinstance(e, ast.Name) and e.id in local_alias:
+                            return local_alias[e.id]
+                        if isinstance(e, ast.Attribute) and isinstance(e.value, ast.Name) and e.value.id == "self" and e.attr in aliases_attr:
+                            return aliases_attr[e.attr]
+                        return None
+                    if isinstance(n, ast.Assign) and len(n.targets) == 1:
+                        c = const_of(n.value)
+                        if c is not None:
+                            t = n.targets[0]
+                            if isinstance(t, ast.Name):
+                                local_alias[t.id] = c
+                            elif isinstance(t, ast.Attribute) and isinstance(t.value, ast.Name) and t.value.id == "self":
+                                aliases_attr[t.attr] = c
+                    site = None
+                    if isinstance(n, ast.Call) and isinstance(n.func, ast.Attribute) and n.func.attr in MUT:
+                        c = const_of(n.func.value)
+                        if c is not None:
+                            site = (c, n)
+                    elif isinstance(n, (ast.Assign, ast.AugAssign, ast.Delete)):
+                        tgts = n.targets if not isinstance(n, ast.AugAssign) else [n.target]
+                        for t in tgts:
+                            if isinstance(t, ast.Subscript):
+                                c = const_of(t.value)
+                                if c is not None:
+                                    site = (c, n)
+                            elif isinstance(n, ast.AugAssign):
+                                c = const_of(t)
+                                if c is not None:
+                                    site = (c, n)
+                    if site:
+                        out.setdefault(f"{cname}.{site[0]}", []).append(f"{uci.file}:{site[1].lineno}: {ast.unparse(site[1])[:80]}")
+        for c in consts:
+            out.setdefault(f"{cname}.{c}", [])
+    return out
 
 
 def write_once_violations(repo, attr, allowed_prefix=None):
